@@ -1426,6 +1426,175 @@ fn lifetimes_case(ch: &mut Choices<'_>, st: &mut Stats) -> CaseResult {
 
 // ---------------------------------------------------------------------------
 
+
+// ---------------------------------------------------------------------------
+// faults: an execution that panics (a user-supplied function panics on one particular argument value) must leave
+// the shared compiled filter as it was: every later execution, on any thread, still returns the sequential result.
+
+fn trap_impl<'a>(args: wirefilter::FunctionArgs<'_, 'a>) -> Option<wirefilter::LhsValue<'a>> {
+    let a = args.next()?;
+    match a {
+        Ok(wirefilter::LhsValue::Bytes(b)) => {
+            if b.starts_with(b"!trap") {
+                panic!("trap sprung");
+            }
+            Some(wirefilter::LhsValue::Bytes(b))
+        }
+        _ => None,
+    }
+}
+
+fn faults_scheme() -> Scheme {
+    use wirefilter::{SimpleFunctionArgKind, SimpleFunctionDefinition, SimpleFunctionImpl, SimpleFunctionParam, Type};
+    let mut b = wirefilter::SchemeBuilder::new();
+    b.add_field("a", Type::Bytes).unwrap();
+    b.add_field("b", Type::Bytes).unwrap();
+    b.add_field("n", Type::Int).unwrap();
+    b.add_field("arr", Type::Array(Type::Bytes.into())).unwrap();
+    b.add_function("concat", wirefilter::ConcatFunction::new()).unwrap();
+    b.add_function(
+        "trap",
+        SimpleFunctionDefinition {
+            params: vec![SimpleFunctionParam { arg_kind: SimpleFunctionArgKind::Field, val_type: Type::Bytes }],
+            opt_params: vec![],
+            return_type: Type::Bytes,
+            implementation: SimpleFunctionImpl::new(trap_impl),
+        },
+    )
+    .unwrap();
+    b.build()
+}
+
+/// (filter text, reference) - the reference is written directly from the documented meaning of each operator;
+/// `trap(x)` is the identity on values that do not spring it.
+fn faults_filters() -> Vec<(&'static str, fn(&[u8], &[u8], i64, &[Vec<u8>]) -> bool)> {
+    fn cat(parts: &[&[u8]]) -> Vec<u8> {
+        parts.concat()
+    }
+    vec![
+        ("concat(a, trap(b)) == \"hello.world\"", |a, b, _, _| cat(&[a, b]) == b"hello.world"),
+        ("concat(a, \"-\", trap(b)) contains \"o-w\"", |a, b, _, _| cat(&[a, b"-", b]).windows(3).any(|w| w == b"o-w")),
+        ("concat(trap(a), b, trap(b)) matches \"^hello\\.\\.world\"", |a, b, _, _| cat(&[a, b, b]).starts_with(b"hello..world")),
+        ("concat(a, concat(a, trap(b))) == \"hello.hello..world\"", |a, b, _, _| cat(&[a, a, b]) == b"hello.hello..world"),
+        ("any(concat(arr[*], trap(b))[*] == \"x.world\")", |_, b, _, arr| arr.iter().any(|e| cat(&[e, b]) == b"x.world")),
+        ("trap(b) in {\".world\" \"zz\"} and n > 3", |_, b, n, _| (b == b".world" || b == b"zz") && n > 3),
+        ("a == \"hello.\" and trap(b) wildcard \"*WORLD\"", |a, b, _, _| a == b"hello." && b.to_ascii_lowercase().ends_with(b"world")),
+        ("not (trap(a) contains \"ell\") or concat(trap(b), a) == \".worldhello.\"", |a, b, _, _| !a.windows(3).any(|w| w == b"ell") || cat(&[b, a]) == b".worldhello."),
+        ("all(trap(arr[*])[*] != \"q\") xor concat(a, trap(b), a) == \"hello..worldhello.\"", |a, b, _, arr| arr.iter().all(|e| e != b"q") ^ (cat(&[a, b, a]) == b"hello..worldhello.")),
+    ]
+}
+
+fn faults_case(ch: &mut Choices<'_>, st: &mut Stats) -> CaseResult {
+    let raw = drain(ch);
+    let ch = &mut Choices::new(&raw);
+    let scheme = faults_scheme();
+    let threads = *ch.pick(&[1usize, 1, 2, 4]);
+    let nops = ch.range(40, 160);
+    // contexts: (a, b, n, arr); the last ones spring the trap through b, a or an element of arr
+    let vals: Vec<(Vec<u8>, Vec<u8>, i64, Vec<Vec<u8>>)> = vec![
+        (b"hello.".to_vec(), b".world".to_vec(), 5, vec![b"x".to_vec(), b"q".to_vec()]),
+        (b"hello.".to_vec(), b"World".to_vec(), 1, vec![]),
+        (b"".to_vec(), b".world".to_vec(), 4, vec![b"x".to_vec()]),
+        (b"hello".to_vec(), b".WORLD".to_vec(), 9, vec![b"y".to_vec(), b"x".to_vec(), b"z".to_vec()]),
+        (b"hello.".to_vec(), b"!trap-b".to_vec(), 5, vec![b"x".to_vec()]),
+        (b"!trap-a".to_vec(), b".world".to_vec(), 5, vec![b"x".to_vec()]),
+        (b"hello.".to_vec(), b".world".to_vec(), 5, vec![b"x".to_vec(), b"!trap-e".to_vec()]),
+    ];
+    let springs = |text: &str, v: &(Vec<u8>, Vec<u8>, i64, Vec<Vec<u8>>)| -> bool {
+        (text.contains("trap(a)") && v.0.starts_with(b"!trap")) || (text.contains("trap(b)") && v.1.starts_with(b"!trap")) || (text.contains("trap(arr[*])") && v.3.iter().any(|e| e.starts_with(b"!trap")))
+    };
+    let ecs: Vec<ExecutionContext<'static>> = vals
+        .iter()
+        .map(|(a, b, n, arr)| {
+            let mut ec = ExecutionContext::new(&scheme);
+            ec.set_field_value(scheme.get_field("a").unwrap(), a.clone()).unwrap();
+            ec.set_field_value(scheme.get_field("b").unwrap(), b.clone()).unwrap();
+            ec.set_field_value(scheme.get_field("n").unwrap(), *n).unwrap();
+            let av = wirefilter::Array::try_from_iter(wirefilter::Type::Bytes, arr.iter().map(|e| wirefilter::LhsValue::Bytes(e.clone().into()))).unwrap();
+            ec.set_field_value(scheme.get_field("arr").unwrap(), av).unwrap();
+            // the contexts live as long as the scheme (both are dropped at the end of the case)
+            unsafe { std::mem::transmute::<ExecutionContext<'_>, ExecutionContext<'static>>(ec) }
+        })
+        .collect();
+    let specs = faults_filters();
+    let mut filters: Vec<Arc<Filter>> = Vec::new();
+    for (text, _) in &specs {
+        match catch(|| scheme.parse(text).map(|a| a.compile()).map_err(|e| e.to_string())) {
+            Ok(Ok(f)) => filters.push(Arc::new(f)),
+            other => return Err(Fail::new("compile-failed", format!("{text}: {other:?}"), json!({"filter": text}))),
+        }
+    }
+    // per-thread scripts of (filter, context); a third of the steps go to a context that may spring the trap
+    let scripts: Vec<Vec<(usize, usize)>> = (0..threads)
+        .map(|_| (0..nops).map(|_| (ch.draw(specs.len()), if ch.chance(1, 3) { 4 + ch.draw(3) } else { ch.draw(4) })).collect())
+        .collect();
+    let barrier = Barrier::new(threads);
+    let failure: Mutex<Option<Value>> = Mutex::new(None);
+    let evals = AtomicUsize::new(0);
+    let sprung = AtomicUsize::new(0);
+    let after = AtomicUsize::new(0);
+    let _permit = acquire_cores(threads);
+    std::thread::scope(|sc| {
+        for (t, script) in scripts.iter().enumerate() {
+            let (specs, vals, ecs, filters, barrier, failure, evals, sprung, after, springs) = (&specs, &vals, &ecs, &filters, &barrier, &failure, &evals, &sprung, &after, &springs);
+            sc.spawn(move || {
+                crate::engine::quiet_panics();
+                let mut history: Vec<String> = Vec::new();
+                let mut faulted = false;
+                barrier.wait();
+                for (fi, vi) in script {
+                    let (text, reference) = &specs[*fi];
+                    let v = &vals[*vi];
+                    let (code, detail) = exec(&filters[*fi], &ecs[*vi]);
+                    evals.fetch_add(1, Ordering::Relaxed);
+                    if springs(text, v) {
+                        // the user function may or may not be reached (short-circuit evaluation is the engine's
+                        // choice); when it is, the panic must come out as a panic
+                        if code == PANIC {
+                            sprung.fetch_add(1, Ordering::Relaxed);
+                            faulted = true;
+                            history.push(format!("PANIC in {text} on context #{vi}"));
+                        } else {
+                            history.push(format!("{text} on context #{vi} (trap not reached)"));
+                        }
+                        continue;
+                    }
+                    let want = reference(&v.0, &v.1, v.2, &v.3);
+                    if faulted {
+                        after.fetch_add(1, Ordering::Relaxed);
+                    }
+                    if code != want as u8 {
+                        let tail: Vec<&String> = history.iter().rev().take(10).collect();
+                        *failure.lock().unwrap() = Some(json!({
+                            "sig": if faulted || sprung.load(Ordering::Relaxed) > 0 { "result-differs-after-a-panicking-execution" } else { "result-differs" },
+                            "thread": t, "filter": text, "context": {"a": show_bytes(&v.0), "b": show_bytes(&v.1), "n": v.2, "arr": v.3.iter().map(|e| show_bytes(e)).collect::<Vec<_>>()},
+                            "engine": code_name(code), "detail": detail, "reference": want, "this_thread_before_(latest_first)": tail,
+                        }));
+                        return;
+                    }
+                    history.push(format!("{text} on context #{vi} = {want}"));
+                    if failure.lock().unwrap().is_some() {
+                        return;
+                    }
+                }
+            });
+        }
+    });
+    st.evals_n(evals.load(Ordering::Relaxed) as u64);
+    drop(filters);
+    drop(ecs);
+    if let Some(f) = failure.into_inner().unwrap() {
+        let sig = f["sig"].as_str().unwrap_or("faults").to_string();
+        return Err(Fail::new(sig, "a shared compiled filter returns another result than the reference (executions that panic inside a user-supplied function happen in between)".to_string(), json!({"scheme": "a, b: Bytes; n: Int; arr: Array(Bytes); concat; trap(Bytes)->Bytes panics on values starting with !trap", "threads": threads, "failure": f})));
+    }
+    st.class(&format!("faults:threads-{threads}"));
+    if sprung.load(Ordering::Relaxed) > 0 && after.load(Ordering::Relaxed) > 0 {
+        st.nontrivial(&(threads, &scripts));
+    }
+    st.sample("faults", || json!({"threads": threads, "steps_per_thread": nops, "panicking_executions": sprung.load(Ordering::Relaxed), "checked_executions_after_a_panic": after.load(Ordering::Relaxed), "filters": specs.iter().map(|s| s.0).collect::<Vec<_>>()}));
+    Ok(())
+}
+
 fn splitmix(s: &mut u64) -> u64 {
     *s = s.wrapping_add(0x9E37_79B9_7F4A_7C15);
     let mut z = *s;
@@ -1446,6 +1615,7 @@ pub fn subs() -> Vec<Sub> {
         Sub { name: "sets-deep", f: Box::new(|ch, st| set_case(DEEP, ch, st)) },
         Sub { name: "fresh", f: Box::new(fresh_case) },
         Sub { name: "lifetimes", f: Box::new(lifetimes_case) },
+        Sub { name: "faults", f: Box::new(faults_case) },
     ]
 }
 
@@ -1455,6 +1625,7 @@ pub fn run(run: &Run) {
          sequential baseline per (filter, context) checked against the reference evaluator, re-executed twice in two orders and once on a recompilation; then T = 2, 4, 16, 64 threads released by a Barrier, each executing every pair `rounds` times (a quarter of that with 64 threads; half as walks over all filters in a per-thread rotated order = different filters in flight together; half as bursts handed out by a shared ticket counter that gives the same filter to the T threads asking next = the same filter in flight in several threads; bursts of filters without regex / function call repeat the contexts 8 times more often) - 3 of 4 threads on the shared Arc<Filter>, every 4th on its own recompilation made after the release, every 4th on its own clone_with(()) copies of the contexts, the others on the shared &ExecutionContext; every result must equal the baseline; \
          fresh: a smaller set handed (as its choice vector) to 3 fresh child processes (one with WIREFILTER_USE_AVX2=0) in which 16 threads released by a barrier first compile+execute their own copies (racing the first read of the SIMD latch and the first regex executions of the process), then race the first executions of freshly compiled shared filters; every thread's result vector must equal the parent's sequential digest; \
          lifetimes: on 1/2/4/8 threads, 60..240 steps each over 6 slots - compile one of (2..4 equal-length patterns of 5..96 bytes) x (matches, wildcard, strict wildcard, contains, ==, !=) into a slot (dropping its filter), execute a slot on one of the patterns / their upper-case forms / embeddings / near misses, drop a slot - every result compared with the reference (the same text under different operators, equal-size allocations recycled, lifetimes overlapping across threads); \
+         faults: 9 filters over concat / a user function trap(Bytes) that panics on values starting with !trap, shared by 1/2/4 threads, 40..160 steps each; a third of the steps execute on a context that springs the trap (the panic is caught by the caller, as the C API does), every other execution - before and after - must return the reference result (a compiled filter keeps nothing from an execution that did not finish); non-trivial (faults) = at least one execution panicked and a later one on the same thread was checked; \
          non-trivial (sets) = in a phase with >= 4 threads the in-flight counter of some shared filter reached >= 2, the set contains >= 1 regex and >= 1 multi-byte contains and the SIMD implementation is active in this process; (fresh) = a child process whose set contains both; distinct by (filter texts, contexts)",
     );
     run.assume("generated search cannot choose thread schedules: this is stress exploration of the schedules that happen to occur on this machine (barrier-released threads, rotated walks and same-filter bursts, phases of concurrently running cases share the cores so that a phase's threads really run in parallel), not a proof over all interleavings; a one-in-10^9 interleaving will not be found");
@@ -1474,6 +1645,7 @@ pub fn run(run: &Run) {
             run.note("wall_sets_s", json!(run.started.elapsed().as_secs_f64()));
             run.enumerate("fresh", 20, &move |i| key_of(seed, 3, i, 4000), &*find_sub(&subs, "fresh").unwrap().f);
             run.enumerate("lifetimes", 1500, &move |i| key_of(seed, 4, i, 8000), &*find_sub(&subs, "lifetimes").unwrap().f);
+            run.enumerate("faults", 1500, &move |i| key_of(seed, 5, i, 2000), &*find_sub(&subs, "faults").unwrap().f);
         }
         Tier::Thorough => {
             run.note("rounds_per_thread_count", json!(DEEP.rounds));
@@ -1481,6 +1653,7 @@ pub fn run(run: &Run) {
             run.enumerate("sets-deep", 128, &move |i| key_of(seed, 2, i, 9000), &*find_sub(&subs, "sets-deep").unwrap().f);
             run.enumerate("fresh", 200, &move |i| key_of(seed, 3, i, 4000), &*find_sub(&subs, "fresh").unwrap().f);
             run.enumerate("lifetimes", 20_000, &move |i| key_of(seed, 4, i, 8000), &*find_sub(&subs, "lifetimes").unwrap().f);
+            run.enumerate("faults", 20_000, &move |i| key_of(seed, 5, i, 2000), &*find_sub(&subs, "faults").unwrap().f);
         }
     }
 }
